@@ -2,7 +2,8 @@
    Property theorems only; every proof is `exact <lemma>` from proof/C01_ServerAuth.v (C01 and C02 share the
    model model/C01_ServerAuth.v).  masq : request -> response is the configured masquerade handler
    (http.NotFound when none is configured): ANY function; a response is status + header list + body. *)
-From Hy Require Import gen.ParamsC01 model.C01_ServerAuth proof.C01_ServerAuth proof.C02_Window model.C02_Abort proof.C02_Abort.
+From Hy Require Import gen.ParamsC01 model.C01_ServerAuth proof.C01_ServerAuth proof.C02_Window model.C02_Abort proof.C02_Abort
+  model.C02_Front proof.C02_Front.
 From Coq Require Import String.
 Local Open Scope N_scope.
 
@@ -150,3 +151,56 @@ Theorem C02_abort_model_conservative : forall cfg masq (m : request -> response)
   xstep cfg masq s (XBase b) = match step cfg m s b with Some (s', o) => Some (s', map XO o) | None => None end.
 Proof. exact xstep_conservative. Qed.
 Print Assumptions C02_abort_model_conservative.
+
+(* ---- the HTTP/3 front of a connection (model/C02_Front.v): the http3.Server that handleClient builds hands a request to
+   ServeHTTP unless its header block is above the limit the library applies - MaxHeaderBytes is not set, so that is
+   http.DefaultMaxHeaderBytes = 1 MiB, the limit of every server of the net/http family.  A wire request w is the request
+   ServeHTTP sees (w_req w) plus the length of the encoded HEADERS frame and the size of the decoded field section. *)
+
+(* The masquerade clause holds in EVERY state of a connection - authenticated or not, with or without an auth request
+   inside Authenticate (s is any state): a request that is not an auth request (only POST + host + path is special:
+   C02_is_auth_req_exact) and whose header block is at most 1 MiB - whatever else its size - is handed to the masquerade
+   handler and gets exactly the handler's response to it; no authenticator call, no 233, nothing in the server changes.
+   And there are reachable authenticated states in which this is what happens to GET hysteria /auth with the credentials
+   that were accepted. *)
+Theorem C02_masq_in_every_connection_state :
+  (forall cfg masq s c w pad,
+     closed (s c) = false -> is_auth_req (w_req w) = false -> w_frame w <= 1048576 -> w_fields w <= 1048576 ->
+     fstep front_limit cfg masq s (FReq c w pad) =
+     Some (s, [FO (ObsMasq c (w_req w)); FO (ObsResp c (w_req w) (masq (w_req w)))])) /\
+  (forall cfg masq s c w1 w2 pad,
+     too_large front_limit w1 = false -> too_large front_limit w2 = false -> w_req w1 = w_req w2 ->
+     fstep front_limit cfg masq s (FReq c w1 pad) = fstep front_limit cfg masq s (FReq c w2 pad)).
+Proof. exact masq_in_every_connection_state. Qed.
+Print Assumptions C02_masq_in_every_connection_state.
+
+(* The front lets through exactly the header blocks of at most 1 MiB: such a request is served by ServeHTTP's step for
+   it (so every theorem above speaks about it); a larger one is answered by the library's bare 431 with no authenticator
+   call, no handler call and no change of state. *)
+Theorem C02_front_limit_is_the_library_default : forall cfg masq s c w pad,
+  closed (s c) = false ->
+  front_limit = 1048576 /\
+  (too_large front_limit w = false <-> w_frame w <= 1048576 /\ w_fields w <= 1048576) /\
+  (too_large front_limit w = false ->
+     fstep front_limit cfg masq s (FReq c w pad) =
+     match step cfg masq s (HttpReq c (w_req w) pad) with Some (s', o) => Some (s', map FO o) | None => None end) /\
+  (too_large front_limit w = true -> fstep front_limit cfg masq s (FReq c w pad) = Some (s, [F431 c w])).
+Proof. exact front_limit_is_the_library_default. Qed.
+Print Assumptions C02_front_limit_is_the_library_default.
+
+(* In every run through the front, whatever the sizes of the header blocks: a response that reaches the client is the
+   masquerade handler's own response to that request, or the 233 response to an auth request and an accepting verdict on
+   the same connection precedes it, or the library's 431 - and that only for a header block above 1 MiB. *)
+Theorem C02_front_unmasks_nothing : forall cfg masq acts s ftr,
+  frun front_limit cfg masq init acts = Some (s, ftr) ->
+  forall pre x post, ftr = pre ++ FE x :: post ->
+    match x with
+    | FO (ObsResp c r resp) =>
+        resp = masq r \/
+        (is_auth_req r = true /\ (exists pad, resp = resp_auth_ok cfg pad) /\
+         exists id pad, In (FA (FAct (AuthVerdict c true id pad))) pre)
+    | F431 c w => 1048576 < w_frame w \/ 1048576 < w_fields w
+    | _ => True
+    end.
+Proof. exact (front_unmasks_nothing front_limit). Qed.
+Print Assumptions C02_front_unmasks_nothing.
